@@ -207,6 +207,7 @@ def run(ctx):
                         break
     custom_modules(ctx)
     toggled_on_an_estimator(ctx)
+    floor_terms_in_a_generated_model(ctx)
     C02.settle(ctx, drv.run(), pending)
     return core.finish(ctx, audit, NOTE, RULE, PARTIAL)
 
@@ -236,6 +237,37 @@ def custom_modules(ctx):
             a, b = results[(tag, True)], results[(tag, False)]
             if any(not core.close(a[k], b[k], scale=1.0, tol=1e-9) for k in a):
                 ctx.fail("cse-on-off:python:custom-modules", f"modules {tag}: CSE on gives {a}, CSE off gives {b}", {"stream": "custom-python-modules", "modules": tag})
+
+
+def floor_terms_in_a_generated_model(ctx):
+    """a generated C++ model (no filter: floor has no derivative) in which floor(...) terms occur several times and are divided by
+    one another: the value with CSE on equals the value with CSE off (a shared floor term is still a real number)"""
+    x, y, dt = sympy.symbols("fx fy dt")
+    fa, fb = sympy.floor(2 * x + y), sympy.floor(y + 3)
+    d = gen.Definition(dt, [x, y], [], [], {x: x + dt * fa / fb + fa * sympy.Rational(1, 8), y: y + fa / fb - fb / 4}, {})
+    d._kind = "model"
+    d.transcend = True
+    jobs = []
+    for cse in (True, False):
+        try:
+            jobs.append((cppgen.generate(d, {}, {}, {}, ctx.scratch, f"fl{int(cse)}", cse=cse, kind="model", rng=None), d, None))
+        except Exception as e:
+            ctx.fail(f"cpp-generate-raises:{fk.exc_kind(e)}:floor", repr(e)[:300], {"def": d.describe(), "cse": cse}); return
+    built = cppgen.build_many(jobs)
+    if any(exe is None for exe, _ in built):
+        ctx.fail("generated-cpp-does-not-compile:floor", (built[0][1] or built[1][1])[-400:], {"def": d.describe()}); return
+    for vals in ((F(7, 2), F(1, 4)), (F(-9, 4), F(5, 2)), (F(45, 10) * 10 ** 9, F(1, 2)), (F(3), F(11, 4))):
+        pt = {"dt": F(1, 8), "cal": {}, "control": {}, "state": {"fx": vals[0], "fy": vals[1]}}
+        case = {"def": d.describe(), "stream": "floor-terms", "point": eh.point_json(pt)}
+        ctx.case(case, True); ctx.count("stream=floor-terms")
+        outs = [cppgen.run_exe(exe, [cppgen.point_line("model", d, pt, None, kind="model")])[0] for exe, _ in built]
+        on, off = ({s_: rh.bitsf(o[f"model.{s_}"]) for s_ in ("fx", "fy")} for o in outs)
+        want = dict(zip(("fx", "fy"), eh.oracle_vals({"fx": d.state_model[x], "fy": d.state_model[y]}, ["fx", "fy"], eh.subs_map(d, pt))))
+        sc = max(abs(float(v)) for v in want.values()) + 1.0
+        if any(not core.close(on[k2], off[k2], scale=sc) for k2 in on):
+            ctx.fail("cse-on-off:cpp:floor", f"generated model with floor terms: CSE on gives {on}, CSE off gives {off}", case)
+        elif any(not core.close(off[k2], want[k2], scale=sc) for k2 in off):
+            ctx.fail("cpp-model-value:floor", f"generated model returns {off}, the expressions give { {k2: float(v) for k2, v in want.items()} }", case)
 
 
 def toggled_on_an_estimator(ctx):
